@@ -1775,15 +1775,16 @@ func (n *node) spawn(factory gen.ProcessFactory, options gen.ProcessOptionsExtra
 		n.targetManager.AddLink(p.parent, p.pid)
 	}
 
+	// do not count system app processes. It is counted before it can be run
+	// by anybody (and terminate, which counts it out)
+	if p.application != system.Name {
+		n.waitprocesses.Add(1)
+	}
+
 	// register process and switch it to the sleep state
 	p.state = int32(gen.ProcessStateSleep)
 	n.processes.Store(p.pid, p)
 	n.initializing.Delete(p.pid)
-
-	// do not count system app processes
-	if p.application != system.Name {
-		n.waitprocesses.Add(1)
-	}
 
 	if atomic.LoadInt32(&n.stopping) == 1 {
 		// the node is being stopped and has sent (or is sending) the exit signal to
